@@ -439,21 +439,39 @@ def r10_spellings_normalise_identically(ctx):
         "a plain class": [("int", int), ("'int'", "int"), ("Annotated[int, ..]", typing.Annotated[int, "m"])],
         "int or None": [("typing.Optional[int]", typing.Optional[int]), ("typing.Union[int, None]", typing.Union[int, None]), ("(int, None)", (int, None)), ("(None, int)", (None, int)), ("'typing.Optional[int]'", "typing.Optional[int]")],
         "None": [("type(None)", type(None)), ("None", None), ("'None'", "None")],
+        "a member that needs normalising (bare type)": [("(int, type)", (int, type)), ("typing.Union[int, type]", typing.Union[int, type]), ("(int, type[object])", (int, type[object])), ("'typing.Union[int, type]'", "typing.Union[int, type]")],
+        "a member that needs normalising (Any)": [("(int, object)", (int, object)), ("typing.Union[int, typing.Any]", typing.Union[int, typing.Any]), ("(int, typing.Any)", (int, typing.Any))],
         "three members, each to be normalised": [("(int, str, object)", (int, str, object)), ("(int, 'str', typing.Any)", (int, "str", typing.Any)), ("typing.Union[int, str, object]", typing.Union[int, str, object])],
     }
     if hasattr(types, "UnionType"):
         groups["int | str"] += [("int | str", int | str), ("'int | str'", "int | str"), ("Annotated[int | str, ..]", typing.Annotated[int | str, "m"])]
         groups["int or None"] += [("int | None", int | None), ("'None | int'", "None | int")]
+        groups["a member that needs normalising (bare type)"] += [("int | type", int | type)]
+    U = lambda *members: ("Union", frozenset(members))  # noqa: E731
+    expected = {
+        "int | str": U(int, str),
+        "anything": object,
+        "any class": type[object],
+        "a plain class": int,
+        "int or None": U(int, type(None)),
+        "None": type(None),
+        "a member that needs normalising (bare type)": U(int, type[object]),
+        "a member that needs normalising (Any)": U(int, object),
+        "three members, each to be normalised": U(int, str, object),
+    }
+    if hasattr(types, "UnionType"):
+        groups["three members, each to be normalised"] += [("int | str | object", int | str | object), ("'object | int | str'", "object | int | str")]
     for what, spellings in groups.items():
         results = [(label, norm(t)) for label, t in spellings]
-        ref = results[0][1]
+        ref = expected[what]
         diff = [(label, r) for label, r in results if r != ref or type(r) is not type(ref)]
+        results = [("the normal form", ref)] + results
         ctx.ob(
             f"{call.key}:spellings:{what}",
             call.loc(),
-            f"every spelling of {what} ({', '.join(l for l, _ in spellings)}) has the same normal form (normaliser interpreted)",
+            f"every spelling of {what} ({', '.join(l for l, _ in spellings)}) has the one normal form {ref!r} (normaliser interpreted)",
             not diff,
-            (f"{results[0][0]} normalises to {ref!r} but {diff[0][0]} to {diff[0][1]!r}: the same annotation written another way registers another signature (or one nothing matches)" if diff else ""),
+            (f"{diff[0][0]} normalises to {diff[0][1]!r} instead of {ref!r}: the same annotation written another way registers another signature (or one nothing matches)" if diff else ""),
         )
 
     # a string annotation means what it means in the globals of the function it annotates
